@@ -488,9 +488,11 @@ pub fn c18(c: &Case, rep: &mut Report, seed: u64) {
             rep.inconclusive(c, "interpreter-limit-at-instantiation");
             continue;
         }
-        // the new body costs one call more than the host import it replaces, so fuel runs out at different points:
-        // a call that exhausts its fuel on either side, and everything after it, is not comparable
-        if let Some(k) = a.steps.iter().zip(b.steps.iter()).position(|(x, y)| x.0 == "out-of-fuel" || y.0 == "out-of-fuel") {
+        // the new body costs one call (and one frame) more than the host import it replaces, so the interpreter's
+        // resource limits (fuel, call depth) are hit at different points: a call that hits one of them on either
+        // side, and everything after it, is not comparable
+        let limit = |s: &str| s == "out-of-fuel" || s == "trap:StackExhausted";
+        if let Some(k) = a.steps.iter().zip(b.steps.iter()).position(|(x, y)| limit(&x.0) || limit(&y.0)) {
             a.steps.truncate(k);
             b.steps.truncate(k);
             rep.count("calls-not-compared-after-fuel-exhaustion", 1);
